@@ -6,6 +6,7 @@ import RbV.Lemmas.BitEnc
 import RbV.Lemmas.SmallInts
 import RbV.Lemmas.Fenwick
 import RbV.Thm.GenSrcFenwick
+import RbV.Thm.GenSrcBitEnc
 /-!
 # C18 — bit-packed containers behave exactly like plain vectors
 
@@ -220,5 +221,53 @@ example : Gen.SrcFenwick.set (· + ·) (0 : Int) [0, 0, 0, 0, 0] 0 7 = Rs.Res.ok
 example : Gen.SrcFenwick.get (· + ·) (0 : Int) [0, 1, 2] 2 = Rs.Res.panic := by decide
 
 end fenwick_source
+
+/-! ## BitEnc: function bodies translated from the source text
+
+`RbV/Gen/SrcBitEnc.lean` (regenerated from `src/data_structures/bitenc.rs` on every `./check C18`): `mask`, `get_by_addr`,
+`set_by_addr`, `addr`.  The fields of `self` are parameters of the translated functions; the theorems instantiate them with
+what `BitEnc::new(w)` stores (`mask(w)`, `32 - 32 % w`).  Proofs: `RbV/Thm/GenSrcBitEnc.lean`. -/
+section bitenc_source
+
+/-- `fn mask`, as written (`(1 << width) - 1` in `u32`), is the model's `mask` for every width below 32 -/
+theorem bitenc_mask_source_eq_model (w : Nat) (hw : w < 32) :
+    Gen.SrcBitEnc.mask w = Rs.Res.ok (Model.BitEnc.mask w) :=
+  GenSrcBitEnc.mask_eq_model w hw
+
+/-- `fn addr`, as written, is the model's `addr` (no overflow of `i * width` assumed, i.e. fewer than 2^64 bits) -/
+theorem bitenc_addr_source_eq_model (w i : Nat) (hw : 1 ≤ w ∧ w ≤ 8) (hmul : i * w < 2 ^ 64) :
+    Gen.SrcBitEnc.addr w (Model.BitEnc.usable w) i = Rs.Res.ok (Model.BitEnc.addr w i) :=
+  GenSrcBitEnc.addr_eq_model w i hw hmul
+
+/-- `fn get_by_addr`, as written, is the model's `getByAddr` for an in-bounds block and a bit position inside the block -/
+theorem bitenc_get_by_addr_source_eq_model (w : Nat) (hw : w ≤ 8) (st : List Nat) (block bit : Nat)
+    (hb : block < st.length) (hbit : bit < 32) :
+    Gen.SrcBitEnc.getByAddr st (Model.BitEnc.mask w) block bit = Rs.Res.ok (Model.BitEnc.getByAddr w st block bit) :=
+  GenSrcBitEnc.getByAddr_eq_model w hw st block bit hb hbit
+
+/-- `fn set_by_addr`, as written, is the model's `setByAddr` (new `self.storage`) -/
+theorem bitenc_set_by_addr_source_eq_model (w : Nat) (st : List Nat) (block bit value : Nat)
+    (hb : block < st.length) (hbit : bit < 32) :
+    Gen.SrcBitEnc.setByAddr st (Model.BitEnc.mask w) block bit value
+      = Rs.Res.ok (Model.BitEnc.setByAddr w st block bit value) :=
+  GenSrcBitEnc.setByAddr_eq_model w st block bit value hb hbit
+
+/-- generated code = specification for one slot: a value written by the translated `set_by_addr` is read back by the
+translated `get_by_addr` truncated to the width; neither panics; the number of blocks is unchanged -/
+theorem bitenc_source_get_after_set (w : Nat) (hw : 1 ≤ w ∧ w ≤ 8) (st : List Nat) (block s value : Nat)
+    (hb : block < st.length) (hs : s < 32 / w) :
+    ∃ st', Gen.SrcBitEnc.setByAddr st (Model.BitEnc.mask w) block (s * w) value = Rs.Res.ok st' ∧
+      st'.length = st.length ∧
+      Gen.SrcBitEnc.getByAddr st' (Model.BitEnc.mask w) block (s * w) = Rs.Res.ok (value % 2 ^ w) :=
+  GenSrcBitEnc.get_after_set w hw st block s value hb hs
+
+example : Gen.SrcBitEnc.mask 3 = Rs.Res.ok 7 := by decide
+example : Gen.SrcBitEnc.addr 7 28 5 = Rs.Res.ok (1, 7) := by decide
+example : Gen.SrcBitEnc.setByAddr [0, 0xFFFFFFFF] 7 1 7 2 = Rs.Res.ok [0, 0xFFFFFD7F] := by decide
+example : Gen.SrcBitEnc.getByAddr [0, 0xFFFFFD7F] 7 1 7 = Rs.Res.ok 2 := by decide
+-- width 32 would shift the `u32` literal out of range: the Rust code panics (overflow check), so does the translation
+example : Gen.SrcBitEnc.mask 32 = Rs.Res.panic := by decide
+
+end bitenc_source
 
 end RbV.Thm.C18
